@@ -133,7 +133,15 @@ func c15Scenario(r *Run, ts []pduType, idx int, term string) {
 		// Whatever the connection makes of it, that Submit still ends with its context and with the connection.
 		x := subs[rng.Intn(len(subs))]
 		x.collided = true
-		f := expectedFrame(genSendable(rng, ts, true, 600), x.c.Seq)
+		var f []byte
+		switch rng.Intn(4) {
+		case 0: // ... or an undecodable frame does (answered by generic_nack; the Submit stays outstanding)
+			f = genBadFrame(rng, ts, x.c.Seq)
+		case 1: // ... or a response PDU of a type that does not answer the request
+			f = genUnsolicited(rng, ts, x.c.Seq)
+		default:
+			f = expectedFrame(genSendable(rng, ts, true, 600), x.c.Seq)
+		}
 		w.Peer([][]byte{f}, [][]int{genCuts(rng, len(f))})
 	}
 	needWatch := true
